@@ -64,6 +64,10 @@ def _chain_result(prog, mod, stmts, env):
             return s.value
         elif isinstance(s, (ast.Expr, ast.Pass)):
             continue
+        elif isinstance(s, ast.Assign) and len(s.targets) == 1 and isinstance(s.targets[0], ast.Name):
+            # a local computed from the value by constant arithmetic (e.g. its bit length)
+            env = dict(env)
+            env[s.targets[0].id] = _eval_num(prog, mod, s.value, env)
         else:
             raise _NoDecision()
     return None
@@ -93,6 +97,9 @@ def dta(ctx, R):
     points = {-2**63, 2**64 - 1, 0, -1, 1}
     for c in consts:
         points |= {c - 1, c, c + 1}
+    # the boundaries of the types themselves are always examined, whatever constants the function is written with
+    for lo_, hi_ in INT_RANGES.values():
+        points |= {lo_ - 1, lo_, lo_ + 1, hi_ - 1, hi_, hi_ + 1}
     points = sorted(x for x in points if -2**63 <= x <= 2**64 - 1)
     order = ["Int32", "Int64", "Uint64"]
     cells_bad = []
@@ -438,6 +445,8 @@ def nk2(ctx, R):
             rp = ("param", [p for p in f.params if p != "self"][0])
             if find(step, ("sub", W(), rp)):
                 looked_up = True
+            if any(x[1] == "get" and x[3] and x[3][0] == rp for x, _b in find(step, ("method", W(), W(), W(), W()))):
+                looked_up = True       # table.get(resolution), the missing unit handled by a test of the result
             for x, _b in find(step, ("call", W(), W(), W())):
                 g = prog.functions.get(x[1]) if isinstance(x[1], str) else None
                 if g is not None and x[2] and x[2][0] == rp:
@@ -445,8 +454,13 @@ def nk2(ctx, R):
                     if find(gv, ("sub", W(), ("param", g.params[0]))):
                         looked_up = True
         dflt = f.defaults.get([p for p in f.params if p != "self"][0]) if len(f.params) > 1 else None
-        R.check(looked_up and dflt is not None and prog.try_fold(dflt) == "us", "%s::resolution lookup" % f.qual, f.where(),
-                "looks up the step for the requested resolution (default 'us')", "resolution handling changed (step `%s`)" % (show(alpha(step))[:80] if step else None))
+        key_r = "%s::resolution lookup" % f.qual
+        uses_res = step is not None and len(f.params) > 1 and bool(find(step, ("param", [p for p in f.params if p != "self"][0])))
+        if looked_up or not uses_res:
+            R.check(looked_up and dflt is not None and prog.try_fold(dflt) == "us", key_r, f.where(),
+                    "looks up the step for the requested resolution (default 'us')", "resolution handling changed (step `%s`)" % (show(alpha(step))[:80] if step else None))
+        else:
+            R.unrecognised(key_r, f.where(), "the step depends on the requested resolution, but not through a lookup that was recognised (`%s`)" % show(alpha(step))[:80])
 
 
 @rule("TBf", "fraction-per-unit constants and epochs are exact", floor=7)
@@ -473,20 +487,43 @@ def tbf(ctx, R):
     for k in want:
         if k not in got:
             R.violation("timestamp._fractions_per_step[%r]" % k, "%s:%d" % (tmod.relpath, d.lineno), "unit %r missing" % k)
-    ts = prog.cls("types.TimeStamp")
-    fpm = prog.class_const(ts, "_fractions_per_microsecond")
-    R.check(isinstance(fpm, float) and fpm == got.get("us"), "types.TimeStamp._fractions_per_microsecond", "%s:%d" % (ts.module.relpath, ts.node.lineno),
-            "encoder and decoder use the same fractions-per-microsecond constant", "encoder constant %r differs from the decoder's %r" % (fpm, got.get("us")))
+    # the encoder's constant, wherever it is kept (class attribute or module constant of the type / timestamp modules)
+    fpms = []
+    for mod in (prog.module("types"), tmod):
+        for name, e in mod.assigns.items():
+            if "fractions_per_microsecond" in name.lower():
+                fpms.append((mod.name + "." + name, "%s:%d" % (mod.relpath, e.lineno), prog.try_fold(e, mod)))
+    for ci in prog.classes.values():
+        if ci.module.name in ("types", "timestamp"):
+            for name, e in ci.attrs.items():
+                if "fractions_per_microsecond" in name.lower():
+                    fpms.append((ci.qual + "." + name, "%s:%d" % (ci.module.relpath, e.lineno), prog.class_const(ci, name)))
+    if not fpms:
+        R.unrecognised("encoder fractions-per-microsecond constant", tmod.relpath, "no constant of that name in nptdms.types / nptdms.timestamp")
+    for q, where, fpm in fpms:
+        R.check(isinstance(fpm, float) and fpm == got.get("us"), q, where,
+                "encoder and decoder use the same fractions-per-microsecond constant", "encoder constant %r differs from the decoder's %r" % (fpm, got.get("us")))
     import numpy as np
     ref = np.datetime64("1904-01-01T00:00:00")
-    for q, e in (("types.TimeStamp._tdms_epoch", ts.attrs.get("_tdms_epoch")), ("timestamp.EPOCH", tmod.assigns.get("EPOCH"))):
-        ok = False
-        if isinstance(e, ast.Call) and call_name(e) in ("np.datetime64",) and e.args and isinstance(e.args[0], ast.Constant):
-            try:
-                ok = np.datetime64(e.args[0].value) == ref
-            except Exception:
-                ok = False
-        R.check(ok, q, "%s" % q, "1904-01-01T00:00:00", "epoch is `%s`" % (unparse(e) if e is not None else None))
+    # every datetime64 literal kept as a constant in these modules is an epoch
+    epochs = []
+    for mod in (prog.module("types"), tmod):
+        for name, e in mod.assigns.items():
+            epochs.append((mod.name + "." + name, e))
+    for ci in prog.classes.values():
+        if ci.module.name in ("types", "timestamp"):
+            for name, e in ci.attrs.items():
+                epochs.append((ci.qual + "." + name, e))
+    epochs = [(q, e) for q, e in epochs if isinstance(e, ast.Call) and (call_name(e) or "").split(".")[-1] == "datetime64" and e.args
+              and isinstance(e.args[0], ast.Constant) and isinstance(e.args[0].value, str)]
+    if not epochs:
+        R.unrecognised("epoch constants", tmod.relpath, "no datetime64 literal kept as a constant in nptdms.types / nptdms.timestamp")
+    for q, e in epochs:
+        try:
+            ok = bool(np.datetime64(e.args[0].value) == ref)
+        except Exception:
+            ok = False
+        R.check(ok, q, "%s" % q, "1904-01-01T00:00:00", "epoch is `%s`" % unparse(e))
 
 
 @rule("TT1", "the absolute time track is the relative track shifted by the start time", floor=3)
